@@ -33,7 +33,7 @@ var c02FilterShapes = []string{
 	`ab(?<=^ab)`, `(?m)^ab`, `ab(?=c)`, `(ab)\1`, `ab|ab`, `abc|abd`, `€a|₭b`, `€a|€b`, `a\x{fffd}`, `\x{fffd}\x{fffd}`, `ab\x{fffd}*`, `a\x{D800}b`, `ab\x{D800}`,
 	`a{3}`, `a{2,}b`, `(?:ab){2}`, `(?:ab*){2}`, `ab\G`, `ab(?!\G)`, `(?=\G)abc`, `\G{2}abc`, `ab(?<=\Gab)c`,
 	// ... ordinal ignore case
-	`(?i)abc\d`, `(?i)ab[cd]`, `(?i)abab`, `(?i)ke\d`, `(?i)ks`, `(?i)sk`, `(?i)a1b`, `(?i)éa`, `(?i)aé`, `(?i)ab\x{fffd}`, `(?i)12`, `(?i)a-b`, `(?i)zk`,
+	`(?i)abc\d`, `(?i)ab[cd]`, `(?i)abab`, `(?i)ke\d`, `(?i)ks`, `(?i)sk`, `(?i)a1b`, `(?i)éa`, `(?i)aé`, `(?i)ab\x{fffd}`, `(?i)12`, `(?i)a-b`, `(?i)zk`, `(?i)za\d`, `(?i)az`, `(?i)Zz`, `(?i)@z`, `(?i)[a-c]*z@`, `(?i)(?:za|zb)c`,
 	// stringIndexPrefixesFilter (analysis mode), both scanners
 	`(?:abc|abd|xyz)\d`, `(?i)(?:abc|xbd)\w`, `abc|abd|ab`, `(abc|def)+x`, `abc|abd|xyz`, `ab|ac|ad`, `ab|cd`, `ab|cd|ce`, `aé|ab`, `éa|éb`, `ab|a\x{fffd}`, `(?i)ab|cd`, `(?i)ke|ka`,
 	`ab|ba`, `aa|ab|ba|bb`, `abc|ab|a`, `(?:ab|ac)\G`, `ab1|ab2|b`,
@@ -175,19 +175,21 @@ func c02Alphabet(r *Rng, fo *syntax.FindOptimizations, ci bool, budget int) []by
 		}
 	}
 	if ci || r.Chance(30) {
+		mates := 0
 		for _, l := range pick {
+			if mates == 2 {
+				break
+			}
 			if m, ok := c02FoldMates[l]; ok {
 				add([]byte(string(m[0])))
 				add([]byte(string(m[1])))
-				break
-			}
-			if 'a' <= l && l <= 'z' {
+				mates++
+			} else if 'a' <= l && l <= 'z' {
 				add([]byte{byte(l - 32)})
-				break
-			}
-			if 'A' <= l && l <= 'Z' {
+				mates++
+			} else if 'A' <= l && l <= 'Z' {
 				add([]byte{byte(l + 32)})
-				break
+				mates++
 			}
 		}
 	}
